@@ -50,6 +50,12 @@ def make_bases(rng, impl):
     progs.append([("P", proto2, gen.rand_points(rng, proto2, 30)), ("B", rng.bytes(700)), ("P", proto1, gen.rand_points(rng, proto1, 5))])
     proto3 = [("sr", "S/0/100000/3f50624dd2f1a9fc/0000000000000000"), ("sa", "F"), ("se", "F"), ("row", "I/0/7"), ("col", "I/-3/3")]
     progs.append([("B", rng.bytes(1100)), ("P", proto3, gen.rand_points(rng, proto3, 20)), ("B", b"")])
+    # a file whose data pages hold neither the header nor XML: damage there leaves open() intact, so the
+    # session reaches the read operations; sections share pages and one spans several pages; the long blob's
+    # content looks like a blob section header at every 4-aligned position, so that bytes served from a wrong
+    # page are accepted by the section parsers and show up as wrong data rather than as an error
+    proto4 = [("x", "F"), ("y", "F"), ("z", "F"), ("r", "I/0/255"), ("g", "I/0/255"), ("b", "I/0/255")]
+    progs.append([("B", rng.bytes(990)), ("B", rng.bytes(100)), ("B", bytes([0, 1, 1, 1]) * 625), ("P", proto4, gen.rand_points(rng, proto4, 40)), ("B", rng.bytes(64))])
     bases = []
     for k, items in enumerate(progs):
         line = "- " + " ".join(c01.item_tok(i) for i in items) + " DUMP"
@@ -68,7 +74,12 @@ def make_bases(rng, impl):
                 off, n = r[1:].split(":")
                 ops.append("B:%s:%s" % (off, n))
         # everything once, then partial reads, then everything again on the same reader
-        bases.append(dict(name="f%d" % k, dev=dev, ops=ops + tail + ops[1:]))
+        seq = ops + tail + ops[1:]
+        if k == 3:
+            # back and forth: an operation that fails is followed by one that re-reads the page cached before the failure
+            body = ops[1:]
+            seq = ops + body[::-1] + [body[1], body[2], body[1], body[3], body[2], body[4], body[3], body[0], body[2], body[0]] + tail
+        bases.append(dict(name="f%d" % k, dev=dev, ops=seq))
     return bases
 
 
@@ -127,6 +138,11 @@ def run(rep, tier, rng, replay=None):
         if tier == "thorough" or bi < 2:
             for pg in range(npages):
                 for i in range(8192):
+                    alts.append((bi, patch_of_bits(pg, [i]), "1bit"))
+        elif bi == 3:
+            # data pages 1..3 of the file with XML-free data pages: every 2nd bit (thorough: all, above)
+            for pg in range(1, min(4, npages)):
+                for i in range(pg % 2, 8192, 2):
                     alts.append((bi, patch_of_bits(pg, [i]), "1bit"))
         n2 = 400 if tier == "quick" else 20000
         for _ in range(n2):
